@@ -24,6 +24,19 @@ const (
 
 var outName = []string{"nil", "err", "panic"}
 
+// extra action of a block, executed on the block's own handle after its second
+// write and before its outcome
+const (
+	actNone      = iota
+	actAddError  // tx.AddError(marker): the error sits on the block's handle itself
+	actFailStmt  // a statement that fails (duplicate key): the error sits on a derived instance only
+	actManualSP  // tx.SavePoint(m); write; tx.RollbackTo(m) inside the block
+	actRTUnknown // tx.RollbackTo(<unknown name>): changes nothing; reported only by dialectors that return the error
+	numActs
+)
+
+var actName = []string{"", "AddError", "failing-statement", "SavePoint/write/RollbackTo", "RollbackTo(unknown)"}
+
 // Block is one Transaction block:
 //
 //	write w<id>a; for each child { child; read }; write w<id>b; outcome
@@ -35,7 +48,9 @@ type Block struct {
 	Outcome int      `json:"outcome"`
 	Swallow bool     `json:"swallow,omitempty"`
 	Kids    []*Block `json:"kids,omitempty"`
+	Act     int      `json:"act,omitempty"`
 	id      int
+	tailDead bool // enumeration only: the part after the children can never run
 }
 
 func (b *Block) String() string {
@@ -52,7 +67,11 @@ func (b *Block) render(sb *strings.Builder, root bool) {
 		}
 		k.render(sb, false)
 	}
-	sb.WriteString("]" + outName[b.Outcome])
+	sb.WriteString("]")
+	if b.Act != actNone {
+		sb.WriteString("+" + actName[b.Act] + ";")
+	}
+	sb.WriteString(outName[b.Outcome])
 	if !root {
 		if b.Swallow {
 			sb.WriteString("~") // failure swallowed by the parent
@@ -63,7 +82,7 @@ func (b *Block) render(sb *strings.Builder, root bool) {
 }
 
 func (b *Block) clone() *Block {
-	n := &Block{Outcome: b.Outcome, Swallow: b.Swallow}
+	n := &Block{Outcome: b.Outcome, Swallow: b.Swallow, Act: b.Act, tailDead: b.tailDead}
 	for _, k := range b.Kids {
 		n.Kids = append(n.Kids, k.clone())
 	}
@@ -153,6 +172,7 @@ func canon(b *Block) *Block {
 		n.Kids = append(n.Kids, ck)
 		if !ck.Swallow && definitelyFails(ck) {
 			n.Outcome = outNil
+			n.tailDead = true
 			break
 		}
 	}
@@ -203,6 +223,35 @@ func allPrograms(maxBlocks, maxDepth int) (progs []*Block, raw int) {
 	return
 }
 
+// withActions returns, for every program of at most maxBlocks blocks, the
+// variants in which exactly one block (whose tail can run) carries one of the
+// extra actions.
+func withActions(progs []*Block, maxBlocks int) []*Block {
+	var out []*Block
+	for _, p := range progs {
+		if p.size() > maxBlocks {
+			continue
+		}
+		var nodes []*Block
+		p.preorder(func(b *Block) { nodes = append(nodes, b) })
+		for i, nb := range nodes {
+			if nb.tailDead {
+				continue
+			}
+			for act := 1; act < numActs; act++ {
+				c := p.clone()
+				var cn []*Block
+				c.preorder(func(b *Block) { cn = append(cn, b) })
+				cn[i].Act = act
+				id := 0
+				c.number(&id)
+				out = append(out, c)
+			}
+		}
+	}
+	return out
+}
+
 // ---------------------------------------------------------------------------
 // reference model: the table as a set of keys + a stack of snapshots
 
@@ -246,6 +295,9 @@ type treeObs struct {
 	Restored  int // snapshots restored
 	NotEntered int
 	Faults    []string // injected faults in program terms
+	Act       int      // extra action present in the program
+	HandleErrFailed int // blocks that failed while their own handle carried an error
+	HandleErrSurfaced int // root blocks that returned nil, committed, and got their handle's error back
 	SPFaultSwallowed bool // a SAVEPOINT fault hit a block whose failure the parent swallows
 	Classes   []string // injected fault classes
 	Trace     []string // reference trace (model events)
@@ -270,7 +322,15 @@ type runner struct {
 	o        *treeObs
 	errs     map[int]*blockErr
 	pvs      map[int]*panicVal
+	markers  map[int]*markerErr
+	// handleErr[id] = an error the block left on its own handle (AddError, a
+	// failed manual SavePoint/RollbackTo with a dialector that reports it)
+	handleErr map[int]error
 }
+
+type markerErr struct{ id int }
+
+func (e *markerErr) Error() string { return fmt.Sprintf("marker added to the handle of B%d", e.id) }
 
 func (r *runner) fail(kind, format string, a ...interface{}) {
 	r.o.NViol++
@@ -317,6 +377,10 @@ func (r *runner) fault(ev *recsqlite.Event) error {
 
 func (r *runner) write(tx *gorm.DB, b *Block, suffix string) error {
 	key := fmt.Sprintf("w%d%s", b.id, suffix)
+	return r.writeKey(tx, b, key)
+}
+
+func (r *runner) writeKey(tx *gorm.DB, b *Block, key string) error {
 	r.inj = r.inj[:0]
 	r.where = fmt.Sprintf("B%d.write(%s)", b.id, key)
 	err := tx.Create(&Row{K: key, V: 1}).Error
@@ -388,11 +452,78 @@ func (r *runner) body(b *Block, tx *gorm.DB) error {
 	if err := r.write(tx, b, "b"); err != nil {
 		return err
 	}
+	if err := r.action(tx, b); err != nil {
+		return err
+	}
 	switch b.Outcome {
 	case outErr:
 		return r.errs[b.id]
 	case outPanic:
 		panic(r.pvs[b.id])
+	}
+	return nil
+}
+
+// action performs the block's extra action on the block's own handle. A
+// non-nil result is returned by the block at once (only a failed manual
+// SavePoint or its write do that).
+func (r *runner) action(tx *gorm.DB, b *Block) error {
+	switch b.Act {
+	case actAddError:
+		tx.AddError(r.markers[b.id])
+		r.handleErr[b.id] = r.markers[b.id]
+		r.tracef("B%d AddError on its own handle", b.id)
+	case actFailStmt:
+		key := fmt.Sprintf("w%da", b.id) // exists: duplicate primary key
+		r.inj = r.inj[:0]
+		r.where = fmt.Sprintf("B%d.failing-insert(%s)", b.id, key)
+		err := tx.Create(&Row{K: key, V: 9}).Error
+		if err == nil {
+			r.fail("duplicate insert succeeded", "%s: Create returned nil", r.where)
+		}
+		if len(r.inj) > 0 && !errors.Is(err, recsqlite.ErrInjected) {
+			r.fail("statement fault not returned", "%s: Create returned %v", r.where, err)
+		}
+		r.tracef("B%d statement fails, block goes on", b.id)
+	case actManualSP:
+		name := fmt.Sprintf("m%d", b.id)
+		r.inj = r.inj[:0]
+		r.where = fmt.Sprintf("B%d.SavePoint(%s)", b.id, name)
+		err := tx.SavePoint(name).Error
+		faulted := len(r.inj) > 0
+		switch {
+		case faulted && err == nil:
+			r.fail("manual SavePoint fault not returned", "%s: the SAVEPOINT statement failed with the injected error, SavePoint().Error is nil", r.where)
+		case faulted && !errors.Is(err, recsqlite.ErrInjected):
+			r.fail("manual SavePoint fault not returned", "%s: SavePoint().Error = %v", r.where, err)
+		case !faulted && err != nil:
+			r.fail("manual SavePoint failed", "%s: %v", r.where, err)
+		}
+		if err != nil {
+			r.handleErr[b.id] = err
+			r.tracef("B%d manual SavePoint fails (fault), block returns the error", b.id)
+			return err
+		}
+		snap := copyKeys(r.m.cur)
+		r.tracef("B%d manual SavePoint", b.id)
+		if err := r.writeKey(tx, b, fmt.Sprintf("w%dm", b.id)); err != nil {
+			return err
+		}
+		r.where = fmt.Sprintf("B%d.RollbackTo(%s)", b.id, name)
+		if err := tx.RollbackTo(name).Error; err != nil {
+			r.fail("manual RollbackTo failed", "%s: %v", r.where, err)
+			r.handleErr[b.id] = err
+		}
+		r.m.cur = snap
+		r.tracef("B%d manual RollbackTo", b.id)
+	case actRTUnknown:
+		r.where = fmt.Sprintf("B%d.RollbackTo(unknown)", b.id)
+		err := tx.RollbackTo(fmt.Sprintf("nosuch%d", b.id)).Error
+		if err != nil {
+			r.handleErr[b.id] = err
+		}
+		r.logf("   B%d RollbackTo(unknown name): err=%v", b.id, err)
+		r.tracef("B%d RollbackTo of an unknown name changes nothing", b.id)
 	}
 	return nil
 }
@@ -470,9 +601,22 @@ func (r *runner) callTx(db *gorm.DB, b *Block, root bool) (st status) {
 			r.fail("COMMIT fault not returned", "B%d: COMMIT failed with the injected error, Transaction returned %v", b.id, st.err)
 		}
 	default:
-		if st.err != nil {
+		he := r.handleErr[b.id]
+		switch {
+		case st.err == nil:
+		case root && he != nil && errors.Is(st.err, he):
+			// the block left an error on its own handle and returned nil: the
+			// commit happened (the table is compared below); Commit().Error hands
+			// the handle's error back. The property ties durability to what the
+			// function returned, so this is recorded, not judged.
+			r.o.HandleErrSurfaced++
+			r.logf("   Transaction returned the error left on the handle (%v) after a successful commit", st.err)
+		default:
 			r.fail("error without cause", "B%d: block and commit succeeded, Transaction returned %v", b.id, st.err)
 		}
+	}
+	if failed && r.handleErr[b.id] != nil {
+		r.o.HandleErrFailed++
 	}
 	restore := failed && (root || !r.noNested)
 	r.m.pop(restore)
@@ -510,10 +654,14 @@ func execTree(c *TreeCase, x *mc.Exec) (o *treeObs) {
 	id := 0
 	c.Prog.number(&id)
 	r := &runner{env: env, x: x, noNested: c.Cfg&cfgNoNested != 0, scope: c.Scope, o: o,
-		errs: map[int]*blockErr{}, pvs: map[int]*panicVal{}}
+		errs: map[int]*blockErr{}, pvs: map[int]*panicVal{}, markers: map[int]*markerErr{}, handleErr: map[int]error{}}
 	c.Prog.preorder(func(b *Block) {
 		r.errs[b.id] = &blockErr{b.id}
 		r.pvs[b.id] = &panicVal{b.id}
+		r.markers[b.id] = &markerErr{b.id}
+		if b.Act != actNone {
+			o.Act = b.Act
+		}
 	})
 	o.AllWrites = 2 * id
 	r.m.cur = []string{}
@@ -609,6 +757,9 @@ func treeTags(c *TreeCase, o *treeObs) []string {
 	}
 	if len(o.Classes) == 0 {
 		tags = append(tags, "fault-free")
+	}
+	if o.Act != actNone {
+		tags = append(tags, "act:"+actName[o.Act])
 	}
 	return tags
 }
